@@ -16,6 +16,7 @@ pub mod c15;
 pub mod c16;
 pub mod c17;
 pub mod c18;
+pub mod rawopt;
 
 use crate::gen::Excl;
 use crate::report::{self, RunCtx};
@@ -61,6 +62,15 @@ pub fn replay_fails(v: &Value) -> Option<(bool, String)> {
         "c10" => c10::replay_case(v),
         "c17" => c17::replay_case(v),
         "c18" => c18::replay_case(v),
+        "rawopt" => {
+            let case: rawopt::RawCase = serde_json::from_value(v["case"].clone()).ok()?;
+            let which = v.get("which").and_then(|w| w.as_u64()).unwrap_or(0) as u8;
+            let mut st = crate::pbt::Stats::default();
+            match rawopt::check(&case, &mut st, which, v.get("property").and_then(|p| p.as_str()).unwrap_or("C02")) {
+                Ok(()) => Some((false, format!("{:?}", st.counters))),
+                Err(r) => Some((true, r)),
+            }
+        }
         "c15" => c15::replay_case(v),
         "c14" => c14::replay_case(v),
         "c12" => c12::replay_case(v),
